@@ -36,6 +36,7 @@ import (
 	"github.com/nuts-foundation/nuts-node/vcr/pe"
 	"github.com/nuts-foundation/nuts-node/vcr/signature/proof"
 	"github.com/nuts-foundation/nuts-node/vcr/test"
+	"github.com/nuts-foundation/nuts-node/vcr/verifier"
 	"go.uber.org/mock/gomock"
 	"verif.local/h"
 )
@@ -97,7 +98,7 @@ func init() {
 	c05Register(&c05Kind{
 		name: "s2s-nonce",
 		// created: the holder's clock may be off in either direction; valid: shorter-lived presentations
-		claims: []string{"created=-4s", "created=+4s", "created=-4s,valid=1s", "created=+4s,valid=1s", "created=+0s,valid=1s", "created=-9s", "created=+10s"},
+		claims: []string{"created=-4s", "created=+4s", "created=-4s,valid=1s", "created=+4s,valid=1s", "created=+0s,valid=1s", "created=-9s", "created=+7s", "created=+9s", "created=+10s"},
 		// the (time-faithful) verifier mock refuses the presentation outside its window, so one acceptance for ever
 		window: func(string) time.Duration { return 0 },
 		// how the presentation is addressed: JSON-LD proof.domain (single value; "" = tenant A) or the aud claim of a JWT
@@ -167,11 +168,18 @@ func init() {
 			}).AnyTimes()
 			// The verifier succeeds for everything except the one thing that defines how long the presentation is a
 			// usable value at all: the time window of its proof, checked exactly as the real signature verifier does
-			// (vcr/verifier/signature_verifier.go: ldProof.ValidAt(now, maxSkew) with maxSkew = 5s), on the harness clock.
-			fx.verifier.EXPECT().VerifyVP(gomock.Any(), true, true, gomock.Any()).DoAndReturn(func(p vc.VerifiablePresentation, _ bool, _ bool, _ any) ([]vc.VerifiableCredential, error) {
+			// (vcr/verifier/signature_verifier.go: ldProof.ValidAt(at, maxSkew)), on the harness clock.
+			// Like the real verifier, the moment of judgement is the validAt argument the handler passes, or now (harness
+			// clock) when it passes nil; the tolerated skew is the verifier's own constant (hook VerifMaxSkew).
+			fx.verifier.EXPECT().VerifyVP(gomock.Any(), true, true, gomock.Any()).DoAndReturn(func(p vc.VerifiablePresentation, _ bool, _ bool, validAt *time.Time) ([]vc.VerifiableCredential, error) {
+				at := fx.now()
+				if validAt != nil {
+					at = *validAt
+					fx.validAtPassed = true
+				}
 				if p.Format() == vc.JWTPresentationProofFormat {
 					// jwtSignature(): jwt validation with the given clock and no skew: nbf <= now < exp, in whole seconds
-					now := fx.now().Truncate(time.Second)
+					now := at.Truncate(time.Second)
 					if now.Before(p.JWT().NotBefore()) || !now.Before(p.JWT().Expiration()) {
 						return nil, errors.New("verification error: unable to validate JWT signature: token not valid at given time")
 					}
@@ -181,7 +189,7 @@ func init() {
 				if err != nil {
 					return nil, err
 				}
-				if !ldProof.ValidAt(fx.now(), 5*time.Second) {
+				if !ldProof.ValidAt(at, verifier.VerifMaxSkew()) {
 					return nil, errors.New("verification error: presentation not valid at given time")
 				}
 				return p.VerifiableCredential, nil
